@@ -60,10 +60,13 @@ CLAIMED.update({
               "machinery on a mini variable graph (ModelParameter rules, Collect, Gaussian observation model, "
               "compute_sufficient_statistics, update_parameters) and TLC compares prior mean, prior variance, scalar and per-feature "
               "noise variance, compute-then-assign order and population-mean identity with the specification (MStepTrace.tla), "
-              "checking that the records cover the space; real fits incl. the mixture model and a run without memory-less phase "
+              "checking that the records cover the space; the mixture model's rules are stated in specs/MixStep.tla (probabilities = mean "
+              "responsibilities summing to one, responsibility-weighted cluster means, dispersions around the pre-step cluster mean, sample "
+              "dispersion in the memory-less phase; ProbsSumToOne, MeanIsConvex, TotalMean, EqualSplit, VarNonNegative) and all 9280 cases "
+              "are run through the model's own parameter declarations (MixStepTrace.tla); real fits incl. the mixture model and a run without memory-less phase "
               "(entries missing inside visits, a starved mixture cluster) are validated against SaemTrace.tla: BatchUpdate, burn-in flag, "
               "statistics identity and, at every iteration, the closed forms evaluated by the recorder on the statistics in force and "
-              "the data mask (noise = RMS residual over observed entries, probabilities = mean responsibilities summing to one); a variance that "
+              "the data mask (noise = RMS residual over observed entries, probabilities = mean responsibilities summing to one, cluster means and dispersions of the mixture model = the MixStep.tla rules); a variance that "
               "collapses outside burn-in must be refused with an untouched state (RefusedWhole)."),
         note=("Exact on the enumerated integer cases (float32 squares compared within 2e-5 relative); composition argument: every "
               "iteration calls exactly these rule functions with the statistics in force and the pre-step state (trace-validated). "
